@@ -268,6 +268,9 @@ class Rig:
         TG.transport_factory = factory
         try:
             self.gwy = Gateway("/dev/null", loop=self.loop, **self.kwargs)
+            ctx = getattr(self.gwy._protocol, "_context", None)
+            if ctx is not None and hasattr(ctx, "_lock"):
+                ctx._lock = TripLock()     # an acquire that would block the (only) thread for ever raises instead
             await self.gwy.start(cached_packets=cached_packets, start_discovery=start_discovery)
         finally:
             TG.transport_factory = self._real_factory
@@ -349,6 +352,32 @@ def mutate_history(rnd: random.Random, logs: dict[str, list], max_len: int = 120
         else:
             h = h[:rnd.randrange(1, len(h) + 1)]
     return h[:max_len]
+
+
+class Deadlock(RuntimeError):
+    """The library would have blocked the event loop's thread for ever (reported by the check, not hung on)."""
+
+
+class TripLock:
+    """Stand-in for ProtocolContext._lock (a threading.Lock used on the loop's thread only): same semantics, except
+    that acquiring it while it is held - which blocks the whole event loop for ever - raises."""
+
+    def __init__(self) -> None:
+        self._held = False
+
+    def acquire(self, blocking=True, timeout=-1):
+        if self._held:
+            raise Deadlock("ProtocolContext._lock.acquire() on a lock that is never released: the event loop would block for ever")
+        self._held = True
+        return True
+
+    def release(self):
+        if not self._held:
+            raise RuntimeError("release unlocked lock")
+        self._held = False
+
+    def locked(self):
+        return self._held
 
 
 def run(coro_fn, *a, **k):
